@@ -8,7 +8,7 @@
    streams without entries, any label bytes). *)
 From Coq Require Import List ZArith NArith Bool Ascii String Lia.
 From Coq Require Permutation.
-From Qryn Require Import gen.DecodeConsts model.Decode proofs.DecodeProofs model.LokiLabels proofs.LokiLabelsProofs model.LokiTime proofs.LokiTimeProofs model.LokiJson proofs.LokiJsonProofs model.DatadogJson proofs.DatadogJsonProofs.
+From Qryn Require Import gen.DecodeConsts model.Decode proofs.DecodeProofs model.LokiLabels proofs.LokiLabelsProofs model.LokiTime proofs.LokiTimeProofs model.LokiJson proofs.LokiJsonProofs model.DatadogJson proofs.DatadogJsonProofs model.NdjsonWalk proofs.NdjsonWalkProofs.
 Import ListNotations.
 Open Scope Z_scope.
 
@@ -321,6 +321,42 @@ Theorem entries_element_key_order_irrelevant :
 Proof. intros. unfold entry_entry. now apply entry_members_perm. Qed.
 Print Assumptions entries_element_key_order_irrelevant.
 
+(* ---------------------------------------------------------------- newline-delimited bodies as documents (model/NdjsonWalk.v) *)
+
+(* an Elasticsearch bulk body written as index / create action lines, each followed by its document -- the action object with
+   any members, the document with ANY members (fields called index, create, update or delete included: defect
+   elastic-document-with-action-key, fixed) -- is walked into exactly these pairs and answered with one row per document:
+   the document's own text, the labels of its own action, the clock as timestamp *)
+Theorem decode_faithful_elastic_bulk_document :
+  forall fp enc_len CS cache_add cache0 threshold flush_limit ctx_ttl (target : string) (ck : clock) (ws : list wpair),
+  let lines := flat_map (wp_eslines target) ws in
+  es_walk target false (flat_map wp_lines ws) = Some lines /\
+  entries_es ck lines = map (fun p => E (es_action_labels target (wp_ams (snd p))) (fst p) (wp_dtext (snd p)) 0%N TYPE_LOG) (clocked (ck_nows ck) ws) /\
+  exists cs, decode fp enc_len CS cache_add cache0 threshold flush_limit ctx_ttl (BEs ck lines) = Done cs /\
+             Forall chunk_rect cs /\ rows_of cs = rows_spec fp ctx_ttl (entries_es ck lines).
+Proof.
+  intros. split; [apply es_walk_pairs|]. split.
+  - unfold entries_es, lines. rewrite es_entry_lines_pairs. generalize (ck_nows ck). induction ws as [|w r IH]; intro nows; [reflexivity|].
+    cbn [map clocked fst snd]. f_equal. apply IH.
+  - exact (decode_faithful_all fp enc_len CS cache_add cache0 threshold flush_limit ctx_ttl (BEs ck lines)).
+Qed.
+Print Assumptions decode_faithful_elastic_bulk_document.
+
+(* Cloudflare trace events written one per line (optional millisecond timestamp, script name, outcome, event type, optional
+   action result, any members the decoder does not know) are read back as exactly these records, one faithful row per line *)
+Theorem decode_faithful_cloudflare_document :
+  forall fp enc_len CS cache_add cache0 threshold flush_limit ctx_ttl (ddsource : string) (ck : clock) (ints : Z -> N) (ws : list wcf),
+  Forall (fun w => forallb (fun kv => negb (cf_known (fst kv))) (wc_extra w) = true) ws ->
+  let lines := map wcf_line ws in
+  all_some cf_line (map (fun w => (wc_text w, Some (wcf_doc ints w))) ws) = Some lines /\
+  exists cs, decode fp enc_len CS cache_add cache0 threshold flush_limit ctx_ttl (BCf ddsource ck lines) = Done cs /\
+             Forall chunk_rect cs /\ rows_of cs = rows_spec fp ctx_ttl (entries_cf ddsource ck lines).
+Proof.
+  intros. split; [now apply cf_lines_written|].
+  exact (decode_faithful_all fp enc_len CS cache_add cache0 threshold flush_limit ctx_ttl (BCf ddsource ck lines)).
+Qed.
+Print Assumptions decode_faithful_cloudflare_document.
+
 (* ---------------------------------------------------------------- Datadog log tags (tagPattern, model/DatadogJson.v) *)
 
 (* a Datadog log document written by a client -- an array of objects with ddtags written k:v,k:v, optional ddsource / service /
@@ -479,4 +515,15 @@ Proof.
   - apply Permutation.Permutation_rev.
   - vm_compute. reflexivity.
 Qed.
+
+Example ndjson_document_hypotheses_met :
+  let ws := [WP false "a1" [("_id", JStr "1"); ("n", JNull)] "d1" [("message", JStr "x"); ("delete", JStr "a field")];
+             WP true "a2" [("_index", JStr "other"); ("type", JStr "t")] "d2" [("index", JNum 0%N None)]]%string in
+  es_walk "idx" false (flat_map wp_lines ws) = Some (flat_map (wp_eslines "idx") ws) /\
+  map (fun e => (e_labels e, e_msg e)) (entries_es (CK 0 9 [1; 2]) (flat_map (wp_eslines "idx") ws)) =
+  [([("type", "elastic"); ("_index", "idx"); ("_id", "1")], "d1"); ([("type", "elastic"); ("_index", "idx")], "d2")]%string /\
+  let cfs := [WCF "l1" (Some 1700000000123) "w" "ok" "fetch" (Some true) [("Logs", JArr [])]; WCF "l2" None "" "" "" None []]%string in
+  Forall (fun w => forallb (fun kv => negb (cf_known (fst kv))) (wc_extra w) = true) cfs /\
+  map cf_ts (map wcf_line cfs) = [1700000000123000000; 0].
+Proof. vm_compute. repeat split; repeat constructor. Qed.
 
